@@ -534,6 +534,37 @@ def run_check(prop, tier, seed, replay=None):
             total["oracle_cases"] += extra["oracle_cases"]
             total["evaluations"] += extra["evaluations"]
 
+    # an environment variable the models do not know (the ambient-inputs theorem of this property no longer checks): the
+    # streams are run again with that variable set, one value at a time
+    if any(b["obligation"].startswith("RV.Ambient.env_reads_") for b in broken):
+        from rv import ambient
+        try:
+            exp = json.load(open(os.path.join(VERIF, "ambient_expected.json")))[prop]
+            now = ambient.scan(os.environ.get("VERIF_REPO", "/repo"))
+            unknown = sorted({n for f in exp["files"] for n in now.get(f, []) if n not in exp["reads"].get(f, []) and not n.startswith("<")})
+        except Exception:
+            unknown = []
+        for name in unknown[:3]:
+            for value in ambient.ENV_VALUES:
+                saved = os.environ.get(name)
+                os.environ[name] = value
+                try:
+                    for s in streams:
+                        extra = run_stream(prop, s, seed, tier, workers, oracle_only=True, factor=1.0, salt="|env:%s=%s" % (name, value))
+                        for f in extra["oracle_failures"]:
+                            f["case"] = dict(f["case"], __env__={name: value}) if isinstance(f["case"], dict) else f["case"]
+                            f["signature"] = f["signature"] + "/env:" + name
+                            if sum(1 for g in total["oracle_failures"] if g["signature"] == f["signature"]) < 3:
+                                total["oracle_failures"].append(f)
+                        total["oracle_fail_count"].update({k + "/env:" + name: v for k, v in extra["oracle_fail_count"].items()})
+                        total["oracle_cases"] += extra["oracle_cases"]
+                        total["evaluations"] += extra["evaluations"]
+                finally:
+                    if saved is None:
+                        os.environ.pop(name, None)
+                    else:
+                        os.environ[name] = saved
+
     # directed search: the cases on which model and implementation differ are handed to the property module, which
     # may turn them into inputs of another (slower, closer to the user) stream's oracle
     if corr_broken and hasattr(mod, "directed"):
@@ -593,17 +624,25 @@ def run_check(prop, tier, seed, replay=None):
             st = [s for s in streams if s.name == f["stream"]][0]
             st.setup()
 
-            def still(c, st=st, sig=sig):
+            env_extra = f["case"].get("__env__") if isinstance(f["case"], dict) else None
+            base_sig = sig.split("/env:")[0] if env_extra else sig
+            if env_extra:
+                os.environ.update(env_extra)
+
+            def still(c, st=st, sig=base_sig):
                 r = st.impl(c)
                 return any(s2 == sig for s2, _ in st.oracle(c, r))
             small = shrink_case(st, f["case"], still, budget=getattr(st, "shrink_budget", 300))
             r = st.impl(small)
             path = write_replay(prop, {"property": prop, "kind": "failing-input", "seed": seed, "tier": tier,
                                        "stream": f["stream"], "signature": sig, "input": small,
-                                       "implementation_result": r, "oracle_detail": [d for s2, d in st.oracle(small, r) if s2 == sig][:3] or f["detail"],
+                                       "implementation_result": r, "oracle_detail": [d for s2, d in st.oracle(small, r) if s2 == base_sig][:3] or f["detail"],
                                        "broken": broken, "repo_head": head, "repo_dirty_files": dirty,
                                        "how_to_replay": "./check %s --replay <this file>" % prop})
             st.teardown()
+            if env_extra:
+                for k in env_extra:
+                    os.environ.pop(k, None)
             lines.append("VIOLATION property=%s replay=%s" % (prop, path))
             violations += 1
         rc = 1
@@ -668,6 +707,10 @@ def run_replay(prop, mod, streams, path):
         # re-run the whole quick check: the replay is the named obligation
         return run_check(prop, "quick", int(rp.get("seed", 0)))
     st = [s for s in streams if s.name == rp["stream"]][0]
+    env_extra = rp["input"].get("__env__") if isinstance(rp["input"], dict) else None
+    want = (rp.get("signature") or "").split("/env:")[0] if env_extra else rp.get("signature")
+    if env_extra:
+        os.environ.update(env_extra)      # the replay includes the environment the failure needs
     st.setup()
     try:
         r = st.impl(rp["input"])
@@ -675,7 +718,7 @@ def run_replay(prop, mod, streams, path):
     finally:
         st.teardown()
     print(json.dumps({"implementation_result": r, "oracle": fails}, indent=1, default=str)[:6000])
-    if any(sig == rp.get("signature") for sig, _ in fails) or (fails and not rp.get("signature")):
+    if any(sig == want for sig, _ in fails) or (fails and not rp.get("signature")):
         print("VIOLATION property=%s replay=%s" % (prop, path))
         return 1
     print("replay no longer fails")
